@@ -76,6 +76,23 @@ func runC17(w *World) *Result {
 	r.Rule("R-C17-append", "append flag true selects >>, otherwise >; selector feeds the write line; echo without -n", 3)
 	r.Rule("R-C17-args", "driver evaluates path, data and append flag once, in order, as used values, then calls WriteFile / ReadFile / Exists", 3)
 	ProtoRule(w, r, "R-C17-args", func(n string) bool { return n == "Write" || n == "Read" || n == "Exists" })
+	r.Rule("R-C17-init", "the helper routines behind write/read start from a defined value on every invocation (a second read does not continue the first)", 1)
+	for _, role := range []string{"bash", "batch"} {
+		bb, err := BuildBackend(w, role)
+		if err != nil {
+			r.Bad("R-C17-init", "extract:"+role, "-", err.Error())
+			continue
+		}
+		used := map[string]bool{}
+		for _, m := range []string{"WriteFile", "ReadFile", "Exists"} {
+			for _, l := range bb.LinesOf(m) {
+				for _, h := range invokedHelpers(bb, l) {
+					used[h] = true
+				}
+			}
+		}
+		HelperInitRule(w, bb, r, "R-C17-init", func(h string) bool { return used[h] })
+	}
 	b, err := BuildBackend(w, "bash")
 	if err != nil {
 		r.Bad("R-C17-append", "extract:bash", "-", err.Error())
@@ -364,8 +381,9 @@ func c18Backend(w *World, b *Backend, r *Result) {
 	}
 	vars0, _ := used[0].T.Expand(expandLimit)
 	vars1, _ := used[1].T.Expand(expandLimit)
-	capOK, statOK := false, false
+	capOK, statOK := len(vars0) > 0, false
 	capName, statName := "", ""
+	masked := ""
 	for _, v := range vars0 {
 		sc := ScanBash(v)
 		txt, _ := flattenPUA(v)
@@ -386,8 +404,15 @@ func c18Backend(w *World, b *Backend, r *Result) {
 				echo = true
 			}
 		}
-		if nsub == 1 && inSub && !echo && len(sc.Holes) > 0 {
-			capOK = true
+		// the line is a bare assignment: a command word in front of it (local, export,
+		// declare …) would make $? the status of that command, which is always 0
+		for _, c := range sc.Cmds {
+			if c.Depth == 0 {
+				masked = c.Name
+			}
+		}
+		if !(nsub == 1 && inSub && !echo && len(sc.Holes) > 0) || masked != "" {
+			capOK = false
 		}
 	}
 	for _, v := range vars1 {
@@ -404,7 +429,11 @@ func c18Backend(w *World, b *Backend, r *Result) {
 	if capOK {
 		r.Ok(rule, "capture:bash:substitution", w.Pos(used[0].Pos), "whole pipeline inside one command substitution assigned to "+capName)
 	} else {
-		r.Bad(rule, "capture:bash:substitution", w.Pos(used[0].Pos), "the first line emitted under valueUsed is not a single quoted command substitution holding the pipeline: "+used[0].T.String())
+		why := "the first line emitted under valueUsed is not a single quoted command substitution holding the pipeline"
+		if masked != "" {
+			why = "the capture is an argument of the command " + masked + ", so the $? read on the next line is the status of " + masked + " (always 0), not of the pipeline"
+		}
+		r.Bad(rule, "capture:bash:substitution", w.Pos(used[0].Pos), why+": "+used[0].T.String())
 	}
 	between := 0
 	for _, em := range mf.Emissions {
